@@ -327,16 +327,22 @@ func (sp *SAMLServiceProvider) getSignerCert() (crypto.Signer, []byte, error) {
 }
 
 func (sp *SAMLServiceProvider) SigningContext() *dsig.SigningContext {
+	verifPoint("sc.rlock")
 	sp.signingContextMu.RLock()
+	verifPoint("sc.rlocked")
 	signingContext := sp.signingContext
+	verifPoint("sc.runlock")
 	sp.signingContextMu.RUnlock()
 
 	if signingContext != nil {
 		return signingContext
 	}
 
+	verifPoint("sc.lock")
 	sp.signingContextMu.Lock()
 	defer sp.signingContextMu.Unlock()
+	defer verifPoint("sc.unlock")
+	verifPoint("sc.locked")
 
 	signing := sp.spSigningKeyStoreOverride
 	if signing == nil && sp.SPSigningKeyStore == nil {
